@@ -14,7 +14,7 @@ from .. import spec as S
 from .c05 import menu_args, menu_from_args
 
 PROP = "C11"
-QKINDS = ["lambda", "def", "str", "named", "cached", "named_cached"]
+QKINDS = ["lambda", "def", "str", "named", "cached", "named_cached", "lambda_default"]
 
 
 def with_qk(spec, qk):
@@ -45,6 +45,11 @@ def continuations(spec, menu, fillable):
         if S.fields(spec):
             evs.append(("fillnp", None))
             evs.append(("fillnp-scalar", None))
+    if fillable and _all_string_quantities(spec) and len(S.fields(spec)) == 1:
+        # string expressions also accept a record of another shape: the bare value of their only variable, or an object
+        # with attributes (what the quantity computes must not depend on what the wrapper saw before it was pickled)
+        evs.append(("fill-bare", menu["events"][1 % len(menu["events"])]))
+        evs.append(("fill-attr", menu["events"][0]))
     evs.append(("iadd", None))
     out = [()]
     out += [(e,) for e in evs]
@@ -52,9 +57,27 @@ def continuations(spec, menu, fillable):
     return out
 
 
+class _Rec:
+    pass
+
+
+def _all_string_quantities(spec):
+    qs = [n.get("qk") for _, _, n in S.node_ids(spec) if "q" in n]
+    return bool(qs) and all(q == "str" for q in qs)
+
+
 def apply_cont(spec, obj, evs_ref, step, menu):
     k, e = step
-    if k == "fill":
+    if k in ("fill-bare", "fill-attr"):
+        (field,) = S.fields(spec)
+        if k == "fill-bare":
+            obj.fill(A.fresh(e[0])[field], e[1])
+        else:
+            r = _Rec()
+            r.__dict__.update(A.fresh(e[0]))
+            obj.fill(r, e[1])
+        evs_ref.append(e)
+    elif k == "fill":
         obj.fill(A.fresh(e[0]), e[1])
         evs_ref.append(e)
     elif k == "fillnp-scalar":
